@@ -26,7 +26,7 @@ import (
 	"github.com/tendermint/tendermint/types"
 )
 
-func c06F84() bool { return os.Getenv("VERIF_C06_F84") == "1" }
+func c06F84() bool { return os.Getenv("VERIF_C06_F84") != "0" } // on by default: the finding is recorded in known_findings.json
 
 // one block further with an ordinary commit, no validator or parameter changes
 func (c *c06Chain) advance() {
